@@ -410,9 +410,10 @@ def handleOps (op : String) (args : List String) (impl : Impl) : Option Ans :=
     let fits := convFits a b.ts && convFits b a.ts
     let ia ← instOf a; let ib ← instOf b
     let want := if op == "eeq" then ia == ib else ia != ib
-    let ins := (a.ts != b.ts) && ((b.ts == TS.UTC && inInserted iersTbl ia) || (a.ts == TS.UTC && inInserted iersTbl ib))
+    -- comparisons convert the UTC operand toward the other scale (always defined), so they are
+    -- chronological also for instants inside an inserted second
     pure { model := (match m with | some x => "ok " ++ bool01 x | none => "unmodelled"),
-           spec := if fits && !ins then judgeInt impl (if want then 1 else 0) else noPanic impl,
+           spec := if fits then judgeInt impl (if want then 1 else 0) else noPanic impl,
            branch := op ++ ":" ++ a.ts.name ++ "," ++ b.ts.name ++ ":" ++ (if !fits then "saturating" else if ia == ib then "same_instant" else if (ia - ib).natAbs ≤ 2 then "ns_apart" else if sval a.dur == -(sval b.dur) then "symmetric" else "other") }
   | "ecmp", [a, b] | "elt", [a, b] | "ele", [a, b] | "egt", [a, b] | "ege", [a, b] => do
     let a ← parseEp? a; let b ← parseEp? b
@@ -428,7 +429,7 @@ def handleOps (op : String) (args : List String) (impl : Impl) : Option Ans :=
       | _ => (c.map (fun c => bool01 (c != -1)), if wc != -1 then 1 else 0)
     let ins := (a.ts != b.ts) && ((b.ts == TS.UTC && inInserted iersTbl ia) || (a.ts == TS.UTC && inInserted iersTbl ib))
     pure { model := (match m with | some x => "ok " ++ x | none => "unmodelled"),
-           spec := if fits && !ins then judgeInt impl want else noPanic impl,
+           spec := if fits then judgeInt impl want else noPanic impl,
            branch := op ++ ":" ++ a.ts.name ++ "," ++ b.ts.name ++ ":" ++ (if !fits then "saturating" else if ins then "inserted_second" else if ia == ib then "same_instant" else if (ia - ib).natAbs ≤ 2 then "ns_apart" else "other") }
   | "emin", [a, b] | "emax", [a, b] => do
     let a ← parseEp? a; let b ← parseEp? b
@@ -439,7 +440,8 @@ def handleOps (op : String) (args : List String) (impl : Impl) : Option Ans :=
     let ia ← instOf a; let ib ← instOf b
     let ins := (a.ts != b.ts) && ((b.ts == TS.UTC && inInserted iersTbl ia) || (a.ts == TS.UTC && inInserted iersTbl ib))
     let wantI := if op == "emin" then (if ia < ib then ia else ib) else (if ia > ib then ia else ib)
-    let sp := if !fits || ins then noPanic impl else match impl with
+    let _ := ins
+    let sp := if !fits then noPanic impl else match impl with
       | .ok [r, r2] => (match parseEp? r, parseEp? r2 with
           | some r, some r2 => verdict [("is_an_operand", (r == a || r == b) && (r2 == a || r2 == b)),
                                         ("instant", instOf r == some wantI && instOf r2 == some wantI)]
@@ -451,8 +453,7 @@ def handleOps (op : String) (args : List String) (impl : Impl) : Option Ans :=
   | "esort3", [a, b, c] => do
     let a ← parseEp? a; let b ← parseEp? b; let c ← parseEp? c
     let fits := [a, b, c].all (fun x => [a, b, c].all (fun y => convFits x y.ts))
-    let ins := [a, b, c].any (fun x => match instOf x with | some i => inInserted iersTbl i | none => true)
-    let sp := if !fits || ins then noPanic impl else match impl with
+    let sp := if !fits then noPanic impl else match impl with
       | .ok [x, y, z] => (match parseEp? x, parseEp? y, parseEp? z with
           | some x, some y, some z =>
             (match instOf x, instOf y, instOf z with
@@ -469,7 +470,8 @@ def handleOps (op : String) (args : List String) (impl : Impl) : Option Ans :=
     let a ← parseEp? a; let b ← parseEp? b; let ts ← TS.ofString? ts
     let fits := convFits a b.ts && convFits b a.ts && convFits a ts && convFits b ts
     let ia ← instOf a; let ib ← instOf b
-    let ins := inInserted iersTbl ia || inInserted iersTbl ib
+    -- only a conversion INTO UTC of an instant inside an inserted second lacks a pre-image
+    let ins := ts == TS.UTC && ((a.ts != TS.UTC && inInserted iersTbl ia) || (b.ts != TS.UTC && inInserted iersTbl ib))
     let wc := cmpInt ia ib
     let ac := a.to ts; let bc := b.to ts
     let one : Dur := ⟨0, 1⟩
@@ -479,10 +481,10 @@ def handleOps (op : String) (args : List String) (impl : Impl) : Option Ans :=
         "ok " ++ toString c1 ++ " " ++ bool01 e1 ++ " " ++ toString c2 ++ " " ++ bool01 e2 ++ " " ++ toString c3 ++ " " ++ toString c4 ++ " " ++
           bool01 (c5 != 1 && c6 == 1)
       | _, _, _, _, _, _, _, _ => "unmodelled"
-    let sp := if !fits || ins then noPanic impl else match impl with
+    let sp := if !fits then noPanic impl else match impl with
       | .ok [c1, e1, c2, e2, c3, c4, rg] =>
         verdict [("cmp", c1 == toString wc), ("eq", e1 == bool01 (wc == 0)), ("reverse_cmp", c2 == toString (-wc)),
-                 ("reverse_eq", e2 == bool01 (wc == 0)), ("left_converted", c3 == toString wc), ("right_converted", c4 == toString wc),
+                 ("reverse_eq", e2 == bool01 (wc == 0)), ("left_converted", ins || c3 == toString wc), ("right_converted", ins || c4 == toString wc),
                  ("range_contains", rg == bool01 (ia ≤ ib && ib < ia + 1))]
       | .other w => "FAIL:" ++ w
       | _ => "FAIL:decode"
